@@ -652,3 +652,36 @@ Theorem C05_tr_ex_region_reads_safe : forall m bs bb be bl s xrow len gbufs lblk
        end /\ CLiteProps.cell_at m' GenCFuncs.G_xrow xr).
 Proof. exact TrExAddr.tr_ex_region_safe. Qed.
 Print Assumptions C05_tr_ex_region_reads_safe.
+
+(* ======================================================================================== *)
+(* (11) ex.c replace(): the replacement text of :s.  `\d` copies memcpy(.., ln + offs[2d], offs[2d+1] - offs[2d]): pointer and
+   length are the offsets of group d as the matcher left them in int offs[32].  CapDefs4.replace reads offs[] and the line with
+   checked loads (a negative length = a garbage size_t, a range outside the line and its terminator: OobRd).
+   C05_replace_reads_safe: for EVERY replacement text, every line and every offs[32] in which each group is either unset
+   (-1, -1) or lies inside the line (0 <= so <= eo <= length), replace returns a value -- no load outside offs[], none outside
+   the line -- of at most |rep| * (1 + |ln|) bytes.
+   C05_replace_needs_wellformed_offsets: the hypothesis is needed, group by group: a reference `\d` to a group whose offsets
+   have eo <> so and (so < 0 or eo < so or eo beyond the terminator) -- e.g. a start mark left behind by an abandoned branch
+   of the pattern, with end -1 -- is an out-of-bounds load.  That the matcher hands well-formed offsets to ec_substitute is
+   checked on the real code (probe request `subst`, tools/props/c05.py) and stated for the model of the matcher by C10-C12. *)
+From NV Require Import CapDefs4 CapProps4.
+Theorem C05_replace_reads_safe : forall (ln : bytes) (offs : list Z), length offs = NOFFS -> offs_ok (Z.of_nat (length ln)) offs = true ->
+  forall rep : bytes, exists out, replace rep ln offs = Ok out /\ (length out <= length rep * (1 + length ln))%nat.
+Proof. exact replace_safe. Qed.
+Print Assumptions C05_replace_reads_safe.
+Theorem C05_replace_needs_wellformed_offsets : forall (ln : bytes) (offs : list Z) (d : nat) (so eo : Z) (rep' : bytes), (d < 10)%nat ->
+  nth_error offs (2 * d) = Some so -> nth_error offs (S (2 * d)) = Some eo ->
+  eo <> so -> (so < 0 \/ eo < so \/ Z.of_nat (length ln) + 1 < eo)%Z ->
+  replace (92%N :: (48 + N.of_nat d)%N :: rep') ln offs = OobRd.
+Proof. exact replace_needs_ok. Qed.
+Print Assumptions C05_replace_needs_wellformed_offsets.
+(* non-vacuity: `[\1]` on the line xby with the match 1..2 and group 1 unset gives `[]`; with group 1 = (1, -1) -- opened by
+   an abandoned alternative and never closed -- the model reports the out-of-bounds load *)
+Example C05_nonvacuous5 :
+  let ln := [120; 98; 121]%N in
+  let ok := ([1; 2; -1; -1] ++ repeat (-1) 28)%Z in
+  let stale := ([1; 2; 1; -1] ++ repeat (-1) 28)%Z in
+  length ok = NOFFS /\ offs_ok 3 ok = true /\ replace [91; 92; 49; 93]%N ln ok = Ok [91; 93]%N /\
+  replace [92; 48; 92; 92; 92]%N ln ok = Ok [98; 92; 92]%N /\
+  offs_ok 3 stale = false /\ replace [91; 92; 49; 93]%N ln stale = OobRd.
+Proof. cbv zeta. repeat split; vm_compute; reflexivity. Qed.
